@@ -531,6 +531,34 @@ func c10Sets(c *Check, tables map[string][]*ssa.Function) {
 				}
 			})
 		}
+		if !guarded && hasEq {
+			// early-return form: `for … { if equal(x, new) { return coll } }; return append(coll, new)` —
+			// the equal outcome of every equality test cannot reach the append at all
+			all, n := true, 0
+			eachInstr(f, func(_ *ssa.BasicBlock, i ssa.Instruction) {
+				cl, ok := i.(*ssa.Call)
+				if !ok {
+					return
+				}
+				if o := calleeObj(cl); o == nil || !(o.Name() == "Equal" || o.Name() == "DeepEqual") {
+					return
+				}
+				brs := branchesOn(cl)
+				if len(brs) == 0 {
+					all = false
+					return
+				}
+				for _, br := range brs {
+					n++
+					if blockReaches(br.TrueSucc, ap.Block(), nil) {
+						all = false
+					}
+				}
+			})
+			if all && n > 0 {
+				guarded = true
+			}
+		}
 		if guarded {
 			dedup = append(dedup, f)
 		} else {
